@@ -12,7 +12,7 @@ CHECKS = {
          "Every file-system effect boundary of each traced history plus frame-aimed torn-write cuts is turned into a directory image (process-crash model), recovered with the real open(), and required to equal the state before or after the in-flight call (or a tolerated partial truncate/delete); second-level crashes inside the recovery's own effects and model-checked continuation histories + restarts on sampled recovered logs. Exhaustive per history over effect boundaries, sampled over histories and byte cuts.",
          "Process-crash model (program order, byte-prefix torn writes); acceptance set from observed snapshots; continuation trusts ops::Model; unmodelled syscalls => inconclusive.", "4/C02", "driver+iotrace"),
  "C03": ("fault_enumeration", "runtime monitor: crash-image reconstruction under process-crash and simulated power-loss models for every persist policy, persist frontier from the API contract",
-         "Same engine as C02 under DoNothing / OnDelay(1h) / Always policies with explicit persist calls: at every effect boundary the process-crash image and several power-loss variants (only fsync-covered bytes survive; never-synced files absent/empty/zero-filled; optional surviving prefix of unsynced writes) must recover to a state at or after the persist frontier.",
+         "Same engine as C02 under DoNothing / OnDelay(1h) / Always policies with explicit persist calls: at every effect boundary the process-crash image and several power-loss variants (only fsync-covered bytes survive; never-synced files absent/empty/zero-filled; optional surviving prefix of unsynced writes) must recover to a state at or after the persist frontier. One recovery in twelve (one in four of the images ending inside a multi-frame entry) continues with persisted calls and a clean restart: what was persisted after a recovery must survive the next restart.",
          "Power loss is simulated from the trace under an explicit disk model (DESIGN.md 2.2); unlink assumed durable at once; frontier derived from the statement only.", "4/C03", "driver+iotrace"),
  "C05": ("exploration", "runtime monitor: lock-step conformance of every call against a sequential reference model",
          "After every call of generated histories the outcome and the whole observable state (list/exists/range over a bound family/last_position/last_record/summary) are compared with a 90-line sequential model; release and dev-profile (overflow-checks) builds; floors on rejected/no-op shapes and ring-wrap reads.",
@@ -24,7 +24,7 @@ CHECKS.update({
          "Every successful append of generated idle/GC-heavy histories is checked against a high-water mark kept from arguments and results only; every queue is probed after every restart and, at sampled call boundaries, in a side branch recovered from the process-crash image (also an image torn inside a multi-frame append), which is then probed, restarted cleanly and read again.",
          "Crash branch assumes Always(Flush): directory content at a call boundary = process-crash image.", "4/C04", "driver+iotrace"),
  "C06": ("exploration", "runtime monitor: directory listing + syscall-trace bookkeeping of the current file after every truncate/delete_queue/open",
-         "After each truncate/delete_queue/open the WAL files present must be a contiguous run ending at the file being written, none older than min(file current when the oldest retained record's append began, file current when the call began); disk_used_bytes must equal the summed sizes. The bound comes from the trace, not from the implementation's refcounts.",
+         "After each truncate/delete_queue/open the WAL files present must be a contiguous run ending at the file being written, none older than min(file current when the oldest retained record's append began, file current when the call began); disk_used_bytes must equal the summed sizes. The bound comes from the trace, not from the implementation's refcounts. On a continuation after the created-but-not-sized crash shape, disk accounting is compared unless the short file is the newest one.",
          "Exact under flush-per-call policies; lazy-policy histories only check contiguity and disk accounting.", "4/C06", "driver+iotrace"),
  "C08": ("fault_enumeration", "runtime monitor: open() on in-place-damaged WAL images, recovered records checked for membership in the set of everything ever appended",
          "Hundreds of damage sets per history (bit flips, garbage, zero-fill, block/multi-block garbage, stale chunk copies, aimed at crc/len/type/payload/block edges) are applied to the final image; on Ok every recovered record must be the (queue, position, payload) of some append and positions per queue strictly increase.",
@@ -45,7 +45,7 @@ CHECKS.update({
          "In-memory leg (hook H2): every case writes filler + entry + follower with the repository's writer and reads them back with its reader, also checking the reported byte counts against an independent recomputation; thorough enumerates every reachable start offset x boundary-relative length family. Through-files leg: 'align' histories whose payload sizes are solved from the traced write cursor, compared across restarts; the trace confirms which alignments were really hit.",
          "Harness-side BlockWrite/BlockRead implementations; identity oracle; thorough in-memory sub-space is exhaustive, the rest sampled.", "4/C07", "driver+iotrace"),
  "C12": ("fault_enumeration", "runtime monitor: crash images and single-frame damage aimed at batch appends, judged against batch boundaries known to the harness",
-         "Focused batch workloads (1..64 self-identifying records, up to 3 files, interleaved truncations); every effect boundary and frame-relative torn write, and every batch frame x {payload, checksum, length, type} damage; each batch must be recovered as nothing, everything, or a hole-free suffix ending at its last record with its missing head at or below an issued truncate position.",
+         "Focused batch workloads (1..64 self-identifying records, up to 3 files, interleaved truncations); every effect boundary and frame-relative torn write, and every batch frame x {payload, checksum, length, type} damage; each batch must be recovered as nothing, everything, or a hole-free suffix ending at its last record with its missing head at or below an issued truncate position. One recovery in three of a crash inside a batch append is followed by a clean restart with nothing appended and judged again.",
          "No model, no snapshot equality; records >= 16 bytes identify their batch; no deletions in this workload so positions are unique.", "4/C12", "driver+iotrace"),
  "C13": ("exploration", "runtime monitor: syscall-trace window + snapshot/disk/content equality around every rejected or no-op call, and after an immediate restart",
          "Eight rejected/no-op shapes inserted at random points of histories under all six policies; the call's trace window (plus a trailing flush) must contain no mutating syscall, state, disk usage and WAL bytes must be unchanged, wal_bytes_written 0, and a restart must reproduce the pre-call state.",
@@ -54,13 +54,13 @@ CHECKS.update({
          "Outcomes (positions, eviction counts, error variants) and full observable states of eight logs are compared after every call and restart (plus disk_used_bytes while the WAL streams are known to have equal length); at the end every directory is reopened under a different policy.",
          "Byte counts excluded (not in the statement); OnDelay(0) exercises the timed path.", "4/C14", "driver"),
  "C15": ("exploration", "runtime monitor: reported wal_bytes_written vs bytes of write syscalls on WAL files inside the call's trace window",
-         "Exact per-call equality under Always policies (all alignments, padding sizes, roll-over inside the call, GC position records), cumulative equality at drained points under lazy policies; one truncate/delete in five meets an injected unlink failure (an Ok must still report the traced count).",
+         "Exact per-call equality under Always policies (all alignments, padding sizes, roll-over inside the call, GC position records), cumulative equality at drained points under lazy policies; one truncate/delete in five meets an injected unlink failure (an Ok must still report the traced count). One restart in three finds the next WAL file created but not sized (crash shape).",
          "Bytes written by open()'s own GC pass are not surfaced by the API and are excluded.", "4/C15", "driver+iotrace"),
  "C16": ("exploration", "runtime monitor: resource_usage() inequalities against quantities computed from the observed snapshot after every call",
-         "P+N <= used <= P+N+64R, used <= allocated, truncation releases what it evicts, names-only baseline when all queues are empty; payloads from 0 to hundreds of KiB; release and dev-profile builds.",
+         "P+N <= used <= P+N+64R, used <= allocated, truncation releases what it evicts, names-only baseline when all queues are empty; payloads from 0 to hundreds of KiB; release and dev-profile builds. The upper bound is also taken against the sequential specification at the per-record overhead calibrated on the same build.",
          "'small constant per record' taken as <= 64 bytes.", "4/C16", "driver"),
  "C17": ("exploration", "runtime monitor: path filter on every traced syscall + type/size/content hash of seeded foreign entries + differential against a clean-directory twin",
-         "Histories with roll-over and GC run next to near-miss names, sub-directories and symlinks named like WAL files, ordinary files; WAL files are renumbered with gaps at some restarts; every path-carrying syscall must name a regular wal-<20 digits> file, foreign entries must be byte-identical after every call, and behaviour must equal the clean twin's.",
+         "Histories with roll-over and GC run next to near-miss names, sub-directories and symlinks named like WAL files, ordinary files; WAL files are renumbered with gaps at some restarts; every path-carrying syscall must name a regular wal-<20 digits> file, foreign entries must be byte-identical after every call, and behaviour must equal the clean twin's. One case in 32 runs in a WAL directory whose path is not valid UTF-8 next to a look-alike sibling directory that must stay untouched.",
          "Entries named exactly like WAL files are placed only at numbers the log never creates.", "4/C17", "driver+iotrace"),
  "C18": ("exploration", "runtime monitor: metamorphic comparison of a k-queue history with its per-queue projections, live, across restarts and after crash recovery",
          "Each queue's outcomes and exists/range/last_position in the full run must equal those of the projected run at every own call and every restart; crash images of the full run inside calls addressed to other queues must recover every other queue exactly as projected; power-loss images of a call boundary under Always(FlushAndFsync) must recover every queue not addressed last exactly as it was live.",
